@@ -11,6 +11,9 @@ for mp in sorted(glob.glob(os.path.join(VERIF, "seeded", "*", "meta.json"))):
     if not n.startswith(pref):
         continue
     m = json.load(open(mp))
+    if m.get("superseded"):
+        print(n, "| superseded:", m["superseded"][:100], flush=True)
+        continue
     demo = [f for f in os.listdir(d) if f.startswith("demo")][0]
     runre = m["demo"]["run"].split("-run ")[1].split()[0]
     checks = ",".join(m["checks"].keys())
